@@ -4688,7 +4688,13 @@ class ParseCtx:
         elif expr.data == "sum_expr":
             return SumIntegerExpr([self._parse_integer_expr(x, into_storage=into_storage) for x in expr.children[::2]], [False, *(x.value == "-" for x in expr.children[1::2])])
         elif expr.data == "mul_expr":
-            return MulIntegerExpr([self._parse_integer_expr(x, into_storage=into_storage) for x in expr.children[::2]], [MulIntegerExprOp.MUL, *(MulIntegerExprOp(x.value) for x in expr.children[1::2])])
+            operands = [self._parse_integer_expr(x, into_storage=into_storage) for x in expr.children[::2]]
+            operators = [MulIntegerExprOp.MUL, *(MulIntegerExprOp(x.value) for x in expr.children[1::2])]
+            for operand, operator, operand_tree in zip(operands, operators, expr.children[::2]):
+                # undefined in C whatever the other operand is (and a compiler warning in the generated code)
+                if operator != MulIntegerExprOp.MUL and operand.is_literal() and operand.get_literal_result() == 0:
+                    raise IllegalParseTree("Division by a constant zero", operand_tree)
+            return MulIntegerExpr(operands, operators)
         elif expr.data == "comp_expr":
             left = self._parse_integer_expr(expr.children[0])
             if isinstance(left, OutIntegerExpr):
@@ -4697,7 +4703,10 @@ class ParseCtx:
                 ref = None
             return CompareIntegerExpr(left, self._parse_integer_expr(expr.children[2], into_storage=ref), CompareIntegerExprOp(expr.children[1].value))
         elif expr.data == "shift_expr":
-            return BitShiftIntegerExpr(self._parse_integer_expr(expr.children[0], into_storage=into_storage), self._parse_integer_expr(expr.children[2], into_storage=into_storage), expr.children[1].value == "<<")
+            shift_count = self._parse_integer_expr(expr.children[2], into_storage=into_storage)
+            if shift_count.is_literal() and shift_count.result_type() == OutputStorageType.INT and shift_count.get_literal_result() < 0:
+                raise IllegalParseTree("Shift by a negative constant", expr.children[2])
+            return BitShiftIntegerExpr(self._parse_integer_expr(expr.children[0], into_storage=into_storage), shift_count, expr.children[1].value == "<<")
         elif expr.data in ["bit_or_expr", "bit_xor_expr", "bit_and_expr"]:
             op = {
                 "bit_or_expr": BitwiseIntegerExprOp.OR,
